@@ -33,19 +33,36 @@ def _sha(*paths):
     return h.hexdigest()[:16]
 
 
-def schedules(ctx, module, cfg, project, timeout=1200, extra_key="", max_len=600):
+def _delta(steps):
+    """Keep, per step, only the keys whose value differs from the previous step (`a`/`t` always)."""
+    out, prev = [], {}
+    for st in steps:
+        d = {k: v for k, v in st.items() if k in ("a", "t") or prev.get(k, _MISSING) != v}
+        out.append(d)
+        prev = st
+    return out
+
+
+_MISSING = object()
+
+
+def schedules(ctx, module, cfg, project, timeout=1200, extra_key="", max_len=600, project_init=None,
+              delta=False):
     """Transition-cover schedules of tla/<module>.tla under tla/<cfg>.
 
     Runs TLC exhaustively (all invariants of the cfg are checked) with the labelled state graph
     dumped, computes edge-covering complete paths and projects every step with
     `project(action, args, post_state) -> dict`.  Returns (info, behaviours_steps) where
-    behaviours_steps is a list of step lists.  The result only depends on the spec, the cfg and
+    behaviours_steps is a list of step lists — or, with `project_init(init_state) -> dict`
+    (specs with several initial states), a list of `{"init": .., "steps": [..]}`.
+    delta=True: a step only carries the keys that changed (the engines' driver accumulates them).  The result only depends on the spec, the cfg and
     this code, so it is cached under work/cache (like ctx.tlc(cache=True))."""
     import inspect
     key = _sha(os.path.join(verif.TLA, module + ".tla"), os.path.join(verif.TLA, cfg),
                os.path.abspath(pathcover.__file__), os.path.abspath(__file__))
     import hashlib
-    key += hashlib.sha1((inspect.getsource(project) + extra_key).encode()).hexdigest()[:8]
+    key += hashlib.sha1((inspect.getsource(project) + extra_key + ("delta" if delta else "")
+                         + (inspect.getsource(project_init) if project_init else "")).encode()).hexdigest()[:8]
     cdir = os.path.join(verif.WORK, "cache")
     cpath = os.path.join(cdir, "sched-%s-%s.json" % (cfg.replace(".cfg", ""), key))
     if os.path.exists(cpath) and not os.environ.get("VERIF_NO_CACHE"):
@@ -64,6 +81,10 @@ def schedules(ctx, module, cfg, project, timeout=1200, extra_key="", max_len=600
     r, g = dump_graph(ctx, module, cfg, timeout=timeout)
     paths = cover(ctx, g, max_len=max_len)
     beh = [[project(a, args, s) for a, args, s in g.steps(p)] for p in paths]
+    if delta:
+        beh = [_delta(st) for st in beh]
+    if project_init:
+        beh = [{"init": project_init(g.state(g.edges[p[0]][0])), "steps": st} for p, st in zip(paths, beh) if p]
     actions = {}
     for (_, _, a, _) in g.edges:
         actions[a] = actions.get(a, 0) + 1
@@ -126,3 +147,106 @@ def cfg_constants(cfg):
 
 def load_replay(ctx):
     return json.load(open(ctx.replay))["case"]["input"]
+
+
+# ----------------------------------------------------------------------------- AfcShm (C40-C42)
+def shm_project(a, args, s):
+    d = {"a": a, "t": args[0] if args else 100, "g": [s["gen"]["A"], s["gen"]["B"]],
+         "cA": s["chans"]["A"], "cB": s["chans"]["B"], "ro": s["read_off"], "wo": s["write_off"],
+         "p0": s["pc"]["100"], "wr": s["wres"]}
+    for i in range(len(s["what"])):
+        d["p%d" % (i + 1)] = s["pc"][str(i + 1)]
+        d["r%d" % (i + 1)] = [s["what"][i], s["tid"][i], s["rfail"][i], s["ctx"][i], s["res"][i]]
+    return d
+
+
+def shm_init(s):
+    return {"script": s["script"]}
+
+
+def shm_behaviours(ctx, cfg, timeout=1800):
+    """(info, behaviours) for `vh-afc shm` from the AfcShm state graph under tla/<cfg>."""
+    info, beh = schedules(ctx, "MC_AfcShm", cfg, shm_project, project_init=shm_init, delta=True, timeout=timeout)
+    c = cfg_constants(cfg)
+    n = len(info["init"]["what"])
+    out = [{"cap": int(c["Cap"]), "readers": n, "rops": int(c["ROps"]), "script": b["init"]["script"],
+            "steps": b["steps"]} for b in beh]
+    return info, out
+
+
+SHM_ACTIONS = ["wop", "wl1", "wb1", "ws", "wl2", "wb2", "rop", "l1", "e2", "lk"]
+SHM_GRAPHS = [("MC_AfcShm_g1.cfg", 3000), ("MC_AfcShm_g2.cfg", 2500)]
+
+
+def trace_line_to_run(trace_path, n):
+    """Index of the run (`reset` record's i) that holds line n (1-based) of an ndjson trace."""
+    run = None
+    with open(trace_path) as f:
+        for k, line in enumerate(f, 1):
+            if '"ev":"reset"' in line:
+                run = json.loads(line)["i"]
+            if k >= n:
+                break
+    return run
+
+
+def validate_history(ctx, prop, trace_path, beh, tag):
+    """I2S: the recorded call/return history against AfcAbs (guards of `prop`).  A rejected trace
+    is a violation of `prop` whose replay is the schedule that produced the unmatched event."""
+    ok, n, r = ctx.validate_trace("Trace_AfcAbs", "Trace_AfcAbs.cfg", trace_path, env={"PROP": prop},
+                                  tag=tag, timeout=900)
+    nev = sum(1 for _ in open(trace_path))
+    if ok:
+        return nev
+    if n is None:
+        raise verif.ToolError("trace validation against AfcAbs failed without a verdict")
+    run = trace_line_to_run(trace_path, n)
+    line = open(trace_path).read().splitlines()[n - 1] if n <= nev else "?"
+    ctx.violation("%s:history-rejected" % prop,
+                  "the real call/return history is not a behaviour of AfcAbs (guards of %s): event %d %s" % (prop, n, line),
+                  {"input": beh[run] if run is not None and run < len(beh) else None, "trace_line": n, "event": line})
+    return nev
+
+
+def shm_check(ctx, vh, prop, mc_cfgs, mutant):
+    """The common part of C40 / C41 / C42 on the shared-memory state."""
+    # 1. design level: exhaustive TLC with every invariant of AfcShm
+    for cfg in mc_cfgs:
+        r = ctx.tlc("MC_AfcShm", cfg, timeout=3000, cache=True)
+        ctx.require_actions(r, SHM_ACTIONS)
+    # 2. the invariant of this property is not vacuous: the spec-level mutant must be rejected
+    sel = []
+    if mutant:
+        rm = ctx.tlc("MC_AfcShm", mutant[0], allow_violation=True, cache=True, timeout=900)
+        if rm.violated != mutant[1]:
+            raise verif.ToolError("self-test failed: spec mutant %s gave %r, expected a violation of %s"
+                                  % (mutant[0], rm.violated, mutant[1]))
+        sel.append("spec mutant %s rejected by TLC (%s)" % (mutant[0], rm.violated))
+    # 3. schedules: transition cover of the schedule graphs, replayed on the real WriteState/ReadState
+    graphs = {}
+    first = None
+    for cfg, cap in SHM_GRAPHS:
+        info, beh = shm_behaviours(ctx, cfg)
+        require_graph_actions(info, SHM_ACTIONS)
+        total = len(beh)
+        if not ctx.thorough and len(beh) > cap:
+            beh = verif.sample(ctx.rng, beh, cap)
+        tag = "shm-" + cfg[10:-4]
+        trace = os.path.join(ctx.workdir, tag + ".trace.ndjson")
+        res = replay(ctx, vh, "shm", beh, tag=tag, opts={"only": prop, "trace": trace, "trace_max": 1500})
+        ctx.absorb(res)
+        nev = validate_history(ctx, prop, trace, beh, tag="trace-" + tag)
+        graphs[cfg] = {"constants": cfg_constants(cfg), "states": info["states"], "transitions": info["transitions"],
+                       "cover_paths": total, "replayed": len(beh),
+                       "steps_executed": sum(x.get("steps", 0) for x in res),
+                       "history_events_validated_against_AfcAbs": nev}
+        if first is None:
+            first = (beh, trace)
+    ctx.cov.update({"exhaustive": True, "schedule_graphs": graphs,
+                    "design_constants": {c: cfg_constants(c) for c in mc_cfgs}})
+    ctx.assumptions += [
+        "yield points precede read_off load/swap, generation load/fetch_add and the list locks in shm/*.rs; list contents are only touched under the lock",
+        "sequentially consistent interleavings only (memory-ordering weakening out of scope, DESIGN §9)",
+        "one process, threads as coroutines; the writer and the readers map the same POSIX shm object",
+    ]
+    return first, sel
